@@ -2,7 +2,7 @@
    reversals, produced by the generator and echoed by the harness).  If the witness passes the certificate check
    check_network_cert, the matrix is a network matrix and hence totally unimodular (NetworkTU.network_cert_tu_bf), so
    CMRtuTest must answer "totally unimodular" whatever its parameters.  No proofs here. *)
-From Cmr Require Import Base Det TuModel GraphModel.
+From Cmr Require Import Base Det TuModel GraphModel SpModel.
 Local Open Scope Z_scope.
 
 Definition tu_net_input :=
@@ -11,22 +11,28 @@ Definition tu_net_input :=
   w <- dwitness ;; dend (cfg, x, rc, v, sub, w).
 
 (* record: ncfg cfg M rc verdict(0/1, 2 = not written) hasSub [nr rows nc cols] witness
-   0 accepted (also when the witness does not certify a network matrix: then nothing is claimed); 1 malformed record;
+   0 accepted (also when neither a network witness nor the series-parallel reduction certifies the matrix: then nothing is claimed); 1 malformed record;
    430 CMRtuTest failed on a network matrix; 431 verdict not written although no stop flag is set;
    432 a network matrix is reported not totally unimodular; 433 a violating submatrix is returned for a network matrix *)
+(* what the record certifies about the matrix without any oracle: a digraph witness that passes the certificate check (network
+   matrix), or - with no witness - a {-1,0,1} matrix that the ternary series-parallel reduction model reduces to nothing
+   (SpTU.sp_ternary_TU: such a matrix is totally unimodular, whatever its size) *)
+Definition tu_certified (m n : nat) (M : mat) (w : witness) : bool :=
+  match w with
+  | WGraph G f c r => check_network_cert m n M G r f c
+  | WNone => is_ternary M && sp_greedy true m n M
+  | WCore _ _ => false
+  end.
+
 Definition judge_tu_net (rec : list Z) : Z :=
   match tu_net_input rec with
   | Some ((cfg, (m, n, M), rc, v, sub, w), _) =>
-    match w with
-    | WGraph G f c r =>
-      (* the expected answer is accepted at once; the (quadratic) certificate check only runs when something is to be refuted *)
-      if (rc =? 0) && (v =? 1) && (match sub with None => true | Some _ => false end) then 0
-      else if negb (check_network_cert m n M G r f c) then 0
-      else if negb (rc =? 0) then 430
-      else if v =? 2 then (if cfg_stopflags cfg then 0 else 431)
-      else if negb (v =? 1) then 432
-      else match sub with None => 0 | Some _ => 433 end
-    | _ => 0
-    end
+    (* the expected answer is accepted at once; the (quadratic) certificate check only runs when something is to be refuted *)
+    if (rc =? 0) && (v =? 1) && (match sub with None => true | Some _ => false end) then 0
+    else if negb (tu_certified m n M w) then 0
+    else if negb (rc =? 0) then 430
+    else if v =? 2 then (if cfg_stopflags cfg then 0 else 431)
+    else if negb (v =? 1) then 432
+    else match sub with None => 0 | Some _ => 433 end
   | None => 1
   end.
